@@ -90,6 +90,13 @@ type World struct {
 	rootNode    string
 	finished    bool
 	simEnd      time.Duration
+
+	// GateSpawn (opt-in, set by a scenario before it starts the system): a child started by
+	// the rewritten `go` statement first parks at a "spawn" point, so it begins to run only
+	// when the scheduler grants it - never concurrently with its parent. Without it the
+	// child races with the code the parent executes up to its next parked point (e.g. an
+	// RWMutex.Unlock admitting the readers that are parked at that instant).
+	GateSpawn bool
 }
 
 var cur *World
@@ -487,8 +494,13 @@ func Go(fn func()) {
 	w.mu.Lock()
 	p.spawned++
 	id := fmt.Sprintf("%s.%d", p.ID, p.spawned)
+	dead := p.dead
 	w.mu.Unlock()
-	w.startTask(&Task{ID: id, Node: p.Node}, fn)
+	if w.GateSpawn {
+		inner := fn
+		fn = func() { w.Park("spawn", "", nil, nil); inner() }
+	}
+	w.startTask(&Task{ID: id, Node: p.Node, dead: dead}, fn)
 }
 
 // AfterFunc is the rewritten time.AfterFunc (rule R3).
@@ -757,6 +769,10 @@ func (w *World) Run(cond func() bool) {
 		}
 	}
 }
+
+// SetMaxIdle changes how much simulated time may pass with nothing to schedule before
+// Step gives up (tasks sleeping across long timeouts need more than the default).
+func (w *World) SetMaxIdle(d time.Duration) { w.cfg.MaxIdle = d }
 
 // Quiesce waits until every goroutine in the bubble is durably blocked.
 func (w *World) Quiesce() { synctest.Wait() }
